@@ -17,7 +17,7 @@ CLAUSES = ["typedNodeSound", "typedNodeComplete", "typedLinkSound", "typedLinkCo
            "usagePatSources", "usageCurveSound", "usageCurveNodes", "usageCurveLinks"]
 
 SETF = "fam_of_mem_linkSets, fam_curveSet, fam_nodeSet"
-KINDF = "isLinkType_ltype, ltype_ne_source, ltype_pump, ltype_valve, isPump_iff, nodePatUser_some, isLinkType_iff"
+KINDF = "isLinkType_ltype, ltype_ne_source, ltype_pump, ltype_valve, isPump_iff, nodePatUser_some, isLinkType_iff, List.mem_of_mem_eraseIdx"
 TABLE = {c: ("set_tables" if c.startswith("typed") else "kind_tables") for c in CLAUSES}
 FACTS = {c: (SETF if c.startswith("typed") else KINDF) for c in CLAUSES}
 
@@ -31,6 +31,14 @@ OPS = {
     "addJunction": ("AddNode", "(s : Reg) (n : Name) (p : Option Name)", "addJunctionR s n p", [HN_NODE], ""),
     "addTank": ("AddNode", "(s : Reg) (n : Name) (c : Option Name)", "addTankR s n c", [HN_NODE], ""),
     "addReservoir": ("AddNode", "(s : Reg) (n : Name) (p : Option Name)", "addReservoirR s n p", [HN_NODE], ""),
+    "addDemand": ("Demand", "(s : Reg) (n : Name) (p : Option Name) (i : NodeInfo)", "addDemandR s n p i",
+                  ["(hi : AL.get? s.nodes n = some i)", "(hk : i.kind = .junction)"], ""),
+    "delDemand": ("Demand", "(s : Reg) (n : Name) (idx : Nat) (i : NodeInfo)", "delDemandR s n idx i",
+                  ["(hi : AL.get? s.nodes n = some i)", "(hk : i.kind = .junction)"], ""),
+    "addFire": ("Demand", "(s : Reg) (n p : Name) (i : NodeInfo)", "addFireR s n p i",
+                ["(hi : AL.get? s.nodes n = some i)", "(hk : i.kind = .junction)"], ""),
+    "removeFire": ("Demand", "(s : Reg) (n p : Name) (i : NodeInfo)", "removeFireR s n p i",
+                   ["(hi : AL.get? s.nodes n = some i)", "(hk : i.kind = .junction)"], ""),
     "addPipe": ("AddLink", "(s : Reg) (n a b : Name)", "addPipeR s n a b", [HN_LINK, HA, HB], ""),
     "addPump": ("AddLink", "(s : Reg) (n a b : Name) (spec : PumpSpec) (pat : Option Name)", "addPumpR s n a b spec pat",
                 [HN_LINK, HA, HB], "cases spec <;> simp only []"),
@@ -67,7 +75,9 @@ SUPPORT = {
     ("delNode", "endsExist"): ["usageNodeLinks"],
 }
 # (op, clause) -> full replacement of the closing tactic (after reg_norm)
-CUSTOM = {}
+CUSTOM = {
+    ("delDemand", "usagePatNodes"): "have he : ∀ d, d ∈ i.demands.eraseIdx idx → d ∈ i.demands := fun d h => List.mem_of_mem_eraseIdx h\n  grind",
+}
 
 try:
     from c14_support import SUPPORT as S2, CUSTOM as C2  # the tables live in a separate module so that they can grow
@@ -147,6 +157,7 @@ import WntrModel.Lemmas.RegistryStepRemove
 import WntrModel.Lemmas.RegistryStepRemoveOther
 import WntrModel.Lemmas.RegistryStepSetLink
 import WntrModel.Lemmas.RegistryStepSetNode
+import WntrModel.Lemmas.RegistryStepDemand
 import WntrModel.Lemmas.RegistryNodup
 
 namespace Wntr.Registry
@@ -194,6 +205,10 @@ def gen_all():
         if op == "addPattern":
             facts, call_cl = ["(hn : n ∉ s.patterns)"], a + " h.1"
             nodup = "%sR_nodup %s hn h.1.nodup" % (op, a)
+        elif op == "addFire":
+            call_cl = " ".join([a] + fn_ + ["h.1"])
+            facts = facts + ["(hp : p ∉ s.patterns)"]
+            nodup = "%sR_nodup %s hp h.1.nodup" % (op, a)
         else:
             call_cl = " ".join([a] + fn_ + ["h.1"])
             nodup = "%sR_nodup %s h.1.nodup" % (op, a)
